@@ -1122,6 +1122,9 @@ def update_detector_states(
         return new_state
 
     for d in to_update:
+        if d._num_time_steps_on == 0:
+            # never active (e.g. always-off switch): the state has no slots, there is nothing to record
+            continue
         # E already lives at the detector's integer time step; H lives at half steps, so exact
         # detectors time-center H as (H_prev + H) / 2 on their region inside the branch.
         state[d.name] = jax.lax.cond(
